@@ -288,6 +288,17 @@ def gen_cases(rng, tier):
     cases.append(dict(kind="str_rt", dt=VISIBLE, s=[65, 0, 0]))
     cases.append(dict(kind="str_rt", dt=UNICODE, s=[65, 0, 66, 0]))
     cases.append(dict(kind="str_rt", dt=UNICODE, s=[0xD7FF, 0xE000, 0xFFFF, 0x10000, 0x10FFFF]))
+    # special code points in leading / trailing / inner position (byte-order marks, plane and surrogate borders)
+    for cp in (0xFEFF, 0xFFFE, 0xFFFF, 0xFFFD, 0xD7FF, 0xE000, 0x10000, 0x10FFFF, 0x7F, 0x80, 0xFF, 0x100, 1, 0x2028, 0x85):
+        for s_ in ([cp], [cp, 0x61], [0x61, cp], [cp, cp, 0x62], [0x61, cp, 0x62]):
+            cases.append(dict(kind="str_rt", dt=UNICODE, s=s_))
+            u = []
+            for x in s_:
+                if x < 0x10000: u += [x & 255, x >> 8]
+            cases.append(dict(kind="dec", dt=UNICODE, bs=u))
+    for cp in (1, 0x7F, 0x20, 0x0A, 0x0D, 0x09):
+        for s_ in ([cp], [cp, 0x61], [0x61, cp], [0x61, cp, 0x62]):
+            cases.append(dict(kind="str_rt", dt=VISIBLE, s=s_))
     step = 257 if tier == "quick" else 17
     cases.append(dict(kind="str_rt", dt=UNICODE, s=[x for x in range(1, 0x10000, step) if not 0xD800 <= x < 0xE000]))
     # malformed text bytes (model only; no oracle demand)
